@@ -161,6 +161,12 @@ func RetryWithConfig[T any](opts RetryConfig) func(Observable[T]) Observable[T] 
 			retries := uint64(0)
 
 			for !subscriptions.IsClosed() {
+				// Nobody is listening anymore (downstream unsubscribed while the previous attempt
+				// was running): do not start another attempt.
+				if destination.IsClosed() {
+					break
+				}
+
 				// Check for context cancellation before retrying
 				select {
 				case <-subscriberCtx.Done():
@@ -299,7 +305,7 @@ func DoWhileIWithContext[T any](condition func(ctx context.Context, index int64)
 			var lastErr error
 
 			for shouldContinue {
-				if subscriptions.IsClosed() {
+				if subscriptions.IsClosed() || destination.IsClosed() {
 					break
 				}
 
@@ -389,7 +395,7 @@ func WhileIWithContext[T any](condition func(ctx context.Context, index int64) (
 			currentCtx := subscriberCtx
 			var lastErr error
 
-			for !subscriptions.IsClosed() {
+			for !subscriptions.IsClosed() && !destination.IsClosed() {
 				var nextCtx context.Context
 				var shouldContinue bool
 				nextCtx, shouldContinue = condition(currentCtx, i)
